@@ -90,6 +90,7 @@ class Ctx:
         self.flts = {}
         self.sigs = sigs or {}  # opaque name -> inspect.Signature (defaults/keywords normalised before the UF is applied)
         self.rtypes = rtypes or {}   # opaque name -> result type code, overrides the prefix convention
+        self.lens = []          # length terms of the dataset and of every opaque collection (for non-trivial witnesses)
         self.used = set()       # (kind, name, nargs) of opaque symbols met (for the concrete replay world)
         self.nfresh = 0
 
@@ -190,6 +191,7 @@ def opaque(cx, kind, name, args, pc):
     if rt in ("so", "si", "sso"):
         ln = cx.uf(key + ".len", *sorts, z3.IntSort())(*args) if args else z3.Int(key + ".len")
         cx.side.append(z3.And(ln >= 0, ln <= cx.N))
+        cx.lens.append(ln)
         if rt == "sso":
             slots = []
             for k in range(cx.N):
@@ -695,6 +697,7 @@ def eq(a, b):
 def dataset(cx, name="ds"):
     ln = z3.Int(name + ".len")
     cx.side.append(z3.And(ln >= 0, ln <= cx.N))
+    cx.lens.append(ln)
     return Seq([(z3.IntVal(k) < ln, z3.Const("%s.ev%d" % (name, k), Obj)) for k in range(cx.N)])
 
 
